@@ -173,6 +173,7 @@ var properties = map[string]*propSpec{
 		Title: "Comparisons are type-strict and numeric by value, whatever the number decoding",
 		Checks: []checkSpec{
 			{Test: "TestC10_Compare", Quick: 20000, Thorough: 400000, Rapid: true},
+			{Test: "TestC10_SharedCompare", Quick: 120, Thorough: 2500, Rapid: true, Race: true, Flaky: true, Shards: 6},
 		},
 		Assumptions: assume(specAssumption, "when two paths are compared with ==, numbers are spelled the one way Go's shortest float formatting spells them (as the property stipulates)"),
 		Floors: []floor{
@@ -204,6 +205,7 @@ var properties = map[string]*propSpec{
 		Title: "Accessor.Set writes exactly the selected location; Get is live",
 		Checks: []checkSpec{
 			{Test: "TestC13_Set", Quick: 20000, Thorough: 300000, Rapid: true},
+			{Test: "TestC13_SharedAccessors", Quick: 120, Thorough: 2500, Rapid: true, Race: true, Flaky: true, Shards: 6},
 		},
 		Assumptions: assume(specAssumption, "accessors whose ancestor location was overwritten are not checked afterwards (README: structure changes are the caller's concern)"),
 		Floors: []floor{
